@@ -125,12 +125,14 @@ def run_pair(base_text, new_text, pack, label):
     if pack["mode"] == "string":
         pn = parse_text(new_text)
     else:
-        with tempfile.TemporaryDirectory(prefix="c02_") as td:
-            pk = dict(pack)
-            if pack["mode"] == "file":
-                pk["cuts"] = []
-            files = W.package(new_text, pk, Path(td))
-            pn = parse_text(files=files)
+        from ..harness import workdir
+
+        td = workdir("c02")  # the same paths are written again and again with new contents
+        pk = dict(pack)
+        if pack["mode"] == "file":
+            pk["cuts"] = []
+        files = W.package(new_text, pk, td)
+        pn = parse_text(files=files)
     sn, _ = full_snapshot(pn, ms)
     d = diff_snapshots(sb, sn)
     if d is not None:
